@@ -179,7 +179,7 @@ def correspondence(ctx, model_ok=True):
     rng = ctx.rng.fork("c15")
     failures = []
     broken = ["reuse model out of date: " + p for p in prologue_matches_source()]
-    n_hist = 3600 if ctx.thorough else 300
+    n_hist = 3600 if ctx.thorough else 1500
     hists = [gen_history(rng.fork("h%d" % i)) for i in range(n_hist)]
     corpus = progs.corpus_dir("C15")
     kinds_seen = {}
@@ -251,7 +251,7 @@ def correspondence(ctx, model_ok=True):
                                          "signature": "failed snippet leaks into %s" % kk, "failing_input": True})
                         break
     # (c) reset == new
-    n_reset = 1200 if ctx.thorough else 120
+    n_reset = 1200 if ctx.thorough else 700
     directed = [
         # identity-compared values cached inside the interpreter must not survive a reset
         (["var x = 1..3; var a1 = 10..11; var a2 = 11..12; var a3 = 12..13; var a4 = 13..14; var a5 = 14..15; var a6 = 15..16; var a7 = 16..17;\n"],
